@@ -223,6 +223,37 @@ class C01(E1Check):
                 if log != want:
                     fails.append(("gen-edge", f"events {log}, expected {want}"))
 
+        async def scoped_main() -> None:
+            """a generator that keeps a nested context open around its yield (a scoped sub-context living as long as the service): its
+            teardown part belongs to the context the function was CALLED in and runs there in reverse order of registration"""
+            from asphalt.core import Context, context_teardown
+
+            for block_raises in (False, True):
+                log: list = []
+
+                @context_teardown
+                async def scoped(tag: str) -> Any:
+                    log.append(("setup", tag))
+                    async with Context():
+                        exc = yield
+                        log.append(("teardown", tag, type(exc).__name__ if exc else None))
+
+                try:
+                    async with Context() as outer:
+                        outer.add_teardown_callback(lambda: log.append(("first",)))
+                        await scoped("s")
+                        outer.add_teardown_callback(lambda: log.append(("last",)))
+                        log.append(("block-end",))
+                        if block_raises:
+                            raise HE("block")
+                except HE:
+                    pass
+                except BaseException as e:  # noqa: BLE001
+                    fails.append(("gen-edge", f"leaving the context of a generator with a scoped sub-context raised {e!r}"))
+                want = [("setup", "s"), ("block-end",), ("last",), ("teardown", "s", "HE" if block_raises else None), ("first",)]
+                if log != want:
+                    fails.append(("gen-edge", f"scoped generator: events {log}, expected {want}"))
+
         async def dup_main() -> None:
             """the SAME callable registered several times with other callbacks in between: still strict reverse order of registration"""
             from asphalt.core import Context
@@ -254,6 +285,7 @@ class C01(E1Check):
         try:
             anyio.run(main)
             anyio.run(dup_main)
+            anyio.run(scoped_main)
         except BaseException as e:  # noqa: BLE001
             fails.append(("gen-edge", f"scenario raised {e!r}"))
         s = new_summary()
